@@ -278,14 +278,18 @@ func (self *BinaryConv) unmarshalList(ctx context.Context, resp http.ResponseSet
 		start := p.Read
 		// parse Value repeated
 		for p.Read < start+len {
-			self.unmarshalSingular(ctx, resp, p, out, fd.Elem())
+			if err := self.unmarshalSingular(ctx, resp, p, out, fd.Elem()); err != nil {
+				return wrapError(meta.ErrRead, "unmarshal List element error", err)
+			}
 			if p.Read != start && p.Read != start+len {
 				*out = json.EncodeArrayComma(*out)
 			}
 		}
 	} else {
 		// unpackedList(format)：[Tag][Length][Value] [Tag][Length][Value]....
-		self.unmarshalSingular(ctx, resp, p, out, fd.Elem())
+		if err := self.unmarshalSingular(ctx, resp, p, out, fd.Elem()); err != nil {
+			return wrapError(meta.ErrRead, "unmarshal List element error", err)
+		}
 		for p.Read < len(p.Buf) {
 			elementFieldNumber, _, tagLen, err := p.ConsumeTagWithoutMove()
 
@@ -298,7 +302,9 @@ func (self *BinaryConv) unmarshalList(ctx context.Context, resp http.ResponseSet
 			}
 			*out = json.EncodeArrayComma(*out)
 			p.Read += tagLen
-			self.unmarshalSingular(ctx, resp, p, out, fd.Elem())
+			if err := self.unmarshalSingular(ctx, resp, p, out, fd.Elem()); err != nil {
+				return wrapError(meta.ErrRead, "unmarshal List element error", err)
+			}
 		}
 	}
 
